@@ -10,17 +10,82 @@ ASSUME_COMMON = ("Trusted: Lean kernel + axioms propext/Classical.choice/Quot.so
                  "check (generators, canonicalisation and Python-computed oracle tables for "
                  "re/codecs/datetime/os are unverified). ")
 
+CORR = ("Correspondence: the real code (imported from /repo) and the executable Lean model run "
+        "on the same generated cases and are diffed; the property is also checked directly "
+        "(spec layer) so a disagreement comes with a failing input. ")
+
 CHECKS = {
     'C01': dict(
-        text="Lean theorems: the model of the search loop (line-outer/definition-inner, "
-             "dedup of registrations, gating, buffering) yields for every unconstrained "
-             "single-line search exactly the declarative list of matching lines, for all "
-             "line tables and definition sets. Correspondence: in-process FileSearcher.run() "
-             "vs the executable model and vs the spec layer on generated scenarios.",
+        text="Lean theorems C01_simple_exact/_meta + runTask_proj: for every line table and "
+             "every set of registered definitions, what the model of the search loop reports for "
+             "an unconstrained single-line search is exactly the declarative list of matching "
+             "lines (order, 1-based numbers, values), whatever else is registered. " + CORR,
         note=ASSUME_COMMON + "CPython re, UTF-8 codec and binary line iteration are oracles.",
-        technique="Lean 4 proof (induction over lines/definitions) + differential "
-                  "correspondence check against the executable model",
-        ref="DESIGN.md §4 C01"),
+        technique="Lean 4 proof (induction over lines/definitions, projection lemma) + "
+                  "differential correspondence check", ref="DESIGN.md §4 C01"),
+    'C03': dict(
+        text="Lean theorems C03_sections_exact/_identity: the sequence state machine of the "
+             "model reports exactly the declaratively specified complete sections "
+             "(Spec.sections) for every classification of lines, end present/absent, "
+             "end-matches-empty, independent of other definitions. " + CORR +
+             "Small-scope model-vs-spec exhaustive run inside Lean guards the statement.",
+        note=ASSUME_COMMON + "uuid4 section ids are modelled by a per-definition counter.",
+        technique="Lean 4 proof (simulation of the state machine by an abstract section "
+                  "builder, equality with a declarative spec) + differential correspondence",
+        ref="DESIGN.md §4 C03"),
+    'C04': dict(
+        text="Lean theorems: bisect over byte offsets with the nearest-dated-line lookup "
+             "positions the file at the first in-window line under explicit decidable "
+             "hypotheses (time-ordered, short undated runs, lines <= 1 MiB-256). " + CORR +
+             "API level: results with the constraint equal the plain search of the suffix.",
+        note=ASSUME_COMMON + "Timestamp extraction on the 64-byte window is an oracle table.",
+        technique="Lean 4 proof (loop invariants with fuel, monotone bisect) + differential "
+                  "correspondence at unit and API level", ref="DESIGN.md §4 C04"),
+    'C07': dict(
+        text="Lean theorems C07_gate_solo/_exact_simple/_exact_seq/_independent: a search with "
+             "a homogeneous set of since constraints behaves exactly like the unconstrained "
+             "search started at its first all-passing line; other searches are unaffected. "
+             "Heterogeneous matcher sets: Lean witness of the deviation (known finding). " + CORR,
+        note=ASSUME_COMMON + "Per-line constraint outcomes are oracle tables (Python re + "
+             "datetime); proved for homogeneous constraint sets only.",
+        technique="Lean 4 proof (gating lemma + projection) + differential correspondence",
+        ref="DESIGN.md §4 C07"),
+    'C11': dict(
+        text="Lean theorems ftr_exact / ft_exact / C11_line_exact / _or_refuses / "
+             "C11_position_shape / seek_no_assert: the chunked backward and forward scans "
+             "return exactly the nearest line feeds (or refuse beyond the 1 MiB limit) for "
+             "every content, offset and constants; the position a since constraint leaves is 0, "
+             "EOF or just after a line feed for ALL contents and timestamp oracles. " + CORR +
+             "try_find_line is run at EVERY offset of each generated content.",
+        note=ASSUME_COMMON + "Binary file seek/read/tell semantics are assumed.",
+        technique="Lean 4 proof (closed form of the scan loops by induction on fuel, "
+                  "invariants over the walks) + differential correspondence at every offset",
+        ref="DESIGN.md §4 C11"),
+    'C14': dict(
+        text="Lean theorems C14_*: for every collection built by add() calls, len/all/items/"
+             "find_by_path/find_by_tag are consistent views and sequence lookups partition the "
+             "matching results into sections, each from one file and one definition. " + CORR,
+        note=ASSUME_COMMON + "Section ids unique per (file, definition) is a hypothesis "
+             "(uuid4).", technique="Lean 4 proof (list/permutation lemmas over an association "
+             "list model) + differential correspondence on synthetic and real populations",
+        ref="DESIGN.md §4 C14"),
+    'C15': dict(
+        text="Lean theorems C15_* (inductive invariant over every addition history, any block "
+             "supplier with disjoint blocks): injective append-only table, None never stored, "
+             "indices from granted blocks used in order, new block only when exhausted, "
+             "allocation error unreachable. " + CORR,
+        note=ASSUME_COMMON + "Python ==/hash on str values; manager proxies behave like the "
+             "objects they wrap (sampled with a real manager).",
+        technique="Lean 4 proof (inductive invariant over add histories) + differential "
+                  "correspondence on operation sequences", ref="DESIGN.md §4 C15"),
+    'C16': dict(
+        text="Lean theorems civil_order (lexicographic datetime order = order of seconds on "
+             "Python's proleptic Gregorian ordinal), C16_pass_iff (boundary passes), "
+             "C16_undecidable, C16_counters. " + CORR + "Python's since_date is checked "
+             "against the Lean calendar on every case (ties timedelta to the model).",
+        note=ASSUME_COMMON + "Timestamp extraction (regex, int conversion) is an oracle.",
+        technique="Lean 4 proof (calendar arithmetic, decision logic) + differential "
+                  "correspondence", ref="DESIGN.md §4 C16"),
 }
 
 NOT_YET = {}
